@@ -137,7 +137,10 @@ def make_set(seed, n=300, nhubs=12, flavour=None):
     flavour "idless": boundary-directed coordinates; about 35% of the non-hub features are written WITHOUT an ID attribute
         (model id: '<featuretype>_<n>', n counting the id-less lines of that featuretype in file order), and about half of
         those are written 2-4 times byte-identically (same seqid, coordinates, strand, featuretype, Parent values):
-        "twins" maps the id of every such feature to the text of its line."""
+        "twins" maps the id of every such feature to the text of its line.
+    flavour "reversed": boundary-directed coordinates; about 35% of the features (parent features too) are STORED with
+        start > end: insertion sites written start = end + 1 (e.g. 1001..1000) and origin-spanning features of a
+        circular sequence (e.g. 4500..300, also across bin boundaries and 2**29)."""
     rng = random.Random(seed * 7919 + 13)
     vals = boundary_values()
     top = [v for v in vals if LIMIT - 2 <= v <= LIMIT + 2]
@@ -167,6 +170,12 @@ def make_set(seed, n=300, nhubs=12, flavour=None):
         a, b = _coords(rng, vals, focus)
         if ends is not None:
             a, b = _binend_coords(rng, ends) or (a, b)
+        if flavour == "reversed" and rng.random() < 0.35:
+            if a < b and rng.random() < 0.5:
+                a, b = b, a                       # runs through the origin of a circular sequence
+            else:
+                x = rng.choice([a, b])
+                a, b = x + 1, x                   # a site between two bases
         f = {
             "id": ("h%d" if hub else "f%d") % i,
             "seqid": rng.choices(seqids, weights)[0],
@@ -395,11 +404,165 @@ def _binend_interval(rng, SET, pool, k):
     return min(max(1, a), b), b
 
 
+def _reversed_interval(rng, SET, pool, within):
+    """A query interval (1 <= a <= b) placed relative to a stored feature with start > end: completely_within holds iff
+    a <= start and end <= b (the telling answers have b < start), overlap holds iff start <= b and end >= a."""
+    rev = [f for f in pool if f["start"] > f["end"]]
+    if not rev:
+        return _interval(rng, SET, pool, within)
+    f = rng.choice(rev)
+    s, e = f["start"], f["end"]
+    r = rng.random()
+    if within:
+        if r < 0.3:
+            b = e + rng.choice([-1, 0, 0, 1])
+        elif r < 0.55:
+            b = s + rng.choice([-2, -1, -1, 0, 1])
+        elif r < 0.85:
+            b = rng.randrange(e, s)
+        else:
+            b = _value(rng, SET, lo=e)
+        b = max(1, b)
+        r = rng.random()
+        if r < 0.3:
+            a = e + rng.choice([-1, 0, 1])
+        elif r < 0.5:
+            a = 1
+        elif r < 0.7:
+            a = s + rng.choice([-1, 0, 0, 1])
+        else:
+            a = rng.randrange(1, b + 1)
+    else:
+        if r < 0.5:
+            a = e + rng.choice([-1, 0, 0, 1])
+        elif r < 0.6:
+            a = 1
+        elif r < 0.85:
+            a = rng.randrange(1, max(1, e) + 1)
+        else:
+            a = s + rng.choice([-1, 0, 1])
+        r = rng.random()
+        if r < 0.6:
+            b = s + rng.choice([-1, 0, 0, 1])
+        elif r < 0.85:
+            b = _value(rng, SET, lo=s)
+        else:
+            b = e + rng.choice([0, 1])
+    a, b = max(1, a), max(1, b)
+    return (a, b) if a <= b else (b, a)
+
+
+BIG_TYPES = ["exon", "CDS", "match", "match_part", "five_prime_UTR"]
+
+
+def make_big(seed, n_in=10600):
+    """One LARGE answer: more than 10 000 features inside [lo, hi] on one seqid; sites hold 1-5 records with identical
+    (start, end) (exon / CDS / match on the same coordinates), neighbouring sites overlap, the same coordinates also
+    recur at other sites; a few hundred features lie outside the interval or on another seqid.
+    -> {"features", "text", "seqid", "other", "lo", "hi", "focus", "seqids", "hubs"}"""
+    rng = random.Random(seed * 15485863 + 5)
+    seqid, other = rng.choice([("ctgBig", "ctgSmall"), ("chrB", "chrb"), ("7", "17")])
+    lo = rng.choice([1000, 2 ** 17 - 50000, 3 * 2 ** 17 - 777, 2 ** 20 - 100000])
+    feats, x, k = [], lo, 0
+    sites = []
+    while len(feats) < n_in:
+        x += rng.choice([0, 1, 7, 40, 50, 50, 120])
+        ln = rng.choice([0, 30, 30, 30, 99, rng.randrange(0, 400)])
+        if sites and rng.random() < 0.05:
+            a, b = rng.choice(sites[-50:])               # the same coordinates once more, at a later file position
+        else:
+            a, b = x, x + ln
+            sites.append((a, b))
+        strand = rng.choice(STRANDS)
+        for ft in rng.sample(BIG_TYPES, rng.choice([1, 2, 2, 3, 3, 3, 4, 5])):
+            k += 1
+            feats.append({"id": "b%d" % k, "seqid": seqid, "featuretype": ft, "start": a, "end": b, "parents": [],
+                          "strand": strand if rng.random() < 0.9 else rng.choice(STRANDS)})
+    hi = max(f["end"] for f in feats)
+    inside = len(feats)
+    for _ in range(150):                                  # the same seqid, outside [lo, hi] (touching it, too)
+        k += 1
+        if rng.random() < 0.5:
+            b = lo - rng.choice([1, 1, 2, 10, rng.randrange(1, lo)])
+            a = max(1, b - rng.choice([0, 5, 200]))
+            b = max(a, b)
+        else:
+            a = hi + rng.choice([1, 1, 2, 10, rng.randrange(1, 10 ** 6)])
+            b = a + rng.choice([0, 5, 200])
+        feats.append({"id": "o%d" % k, "seqid": seqid, "featuretype": rng.choice(BIG_TYPES), "start": a, "end": b,
+                      "parents": [], "strand": rng.choice(STRANDS)})
+    for _ in range(120):                                  # another seqid, same coordinates
+        k += 1
+        m = rng.choice(feats[:inside])
+        feats.append(dict(m, id="x%d" % k, seqid=other, parents=[]))
+    rng.shuffle(feats)
+    used = sorted({f["start"] for f in feats[:400]} | {f["end"] for f in feats[:400]})
+    return {"features": feats, "text": text_of(feats), "seqid": seqid, "other": other, "lo": lo, "hi": hi,
+            "focus": used[:40], "seqids": [seqid, other], "hubs": [], "inside": inside}
+
+
+def big_queries(seed, BIG):
+    """The queries of a 'big' case: windows holding more than 10 000 features in every region form, by all_features and
+    features_of_type(limit=); `slow` = (big query, small query, chunk seed) triples for slow / interleaved consumption."""
+    rng = random.Random(seed * 32452843 + 11)
+    seqid, lo, hi = BIG["seqid"], BIG["lo"], BIG["hi"]
+    mids = sorted(f["start"] for f in BIG["features"] if f["seqid"] == seqid and lo <= f["start"] <= hi)
+
+    def q(api, form, a, b, within, **kw):
+        d = {"api": api, "form": form, "within": within, "id": None, "level": None, "strand": None, "fstrand": None,
+             "ft": None, "ft_form": None, "seqid": None if form.endswith("noseqid") else seqid,
+             "start": None if form.startswith("end-only") else a, "end": None if form.startswith("start-only") else b}
+        d.update(kw)
+        return d
+
+    def window():
+        r = rng.random()
+        if r < 0.3:
+            return max(1, lo - rng.choice([0, 1, 500])), hi + rng.choice([0, 1, 10 ** 6, LIMIT])
+        if r < 0.5:
+            return lo, hi
+        # cut off up to 1.5% of the sites at either side: the answer stays large, its first / last rows change
+        a = mids[rng.randrange(0, len(mids) // 70)] + rng.choice([-1, 0, 1])
+        b = mids[-1 - rng.randrange(0, len(mids) // 70)] + rng.choice([-1, 0, 1, 30])
+        return a, b
+
+    qs = []
+    forms = [("region", f) for f, _ in REGION_FORMS] + [("all_features", "tuple"), ("all_features", "string"),
+                                                        ("features_of_type", "tuple")]
+    for api, form in forms:
+        for within in ((False, True) if api != "features_of_type" and "noseqid" not in form else (rng.random() < 0.5,)):
+            a, b = window()
+            kw = {}
+            if form == "feature":
+                kw["fstrand"] = rng.choice(STRANDS)
+            if api == "features_of_type":
+                kw.update(ft=sorted(BIG_TYPES), ft_form=rng.choice(["list", "tuple", "set"]))
+            qs.append(q(api, form, a, b, within, **kw))
+    slow = []
+    for mode in ("slow", "slow", "zip"):
+        a, b = window()
+        big = q("region", rng.choice(["tuple", "string", "kw", "feature"]), a, b, rng.random() < 0.5)
+        if big["form"] == "feature":
+            big["fstrand"] = "."
+        if mode == "zip":
+            a2, b2 = window()
+            api2 = rng.choice(["region", "all_features"])
+            second = q(api2, "tuple", a2, b2, rng.random() < 0.5)
+        else:
+            m = rng.choice(mids)
+            api2 = rng.choice(["region", "all_features", "region"])
+            second = q(api2, rng.choice(["tuple", "string"]), max(1, m - rng.choice([0, 10, 300])), m + rng.choice([0, 30, 2000]),
+                       rng.random() < 0.5)
+        slow.append({"mode": mode, "big": big, "second": second, "chunks": rng.randrange(10 ** 9)})
+    return qs, slow
+
+
 def gen_query(rng, SET, mode=None):
     """One query (JSON-able dict) against the feature set SET.
 
     mode None: see RULE of the check; "wide": two-bound query of span 100-500 Mb starting inside the first 128 kb
-    (85% completely_within); "binend": two-bound query whose end is the last base of a bin of level 0-3."""
+    (85% completely_within); "binend": two-bound query whose end is the last base of a bin of level 0-3; "reversed":
+    two-bound query placed relative to a stored feature with start > end."""
     feats = SET["features"]
     api = _weighted(rng, APIS)
     within = rng.random() < (0.85 if mode == "wide" else 0.5)
@@ -429,6 +592,9 @@ def gen_query(rng, SET, mode=None):
         k = rng.randrange(4)
         a, b = _binend_interval(rng, SET, pool, k)
         q["tag"] = "binend:%d" % k
+    elif mode == "reversed":
+        a, b = _reversed_interval(rng, SET, pool, within)
+        q["tag"] = "reversed"
     else:
         a, b = _interval(rng, SET, pool, within)
     q["start"] = None if q["form"].startswith("end-only") else a
